@@ -421,6 +421,29 @@ func c03CodecOn(c *fw.Ctx, g *model.G, m wkbMode) {
 	if !expectGeom(c, m.name+" Unmarshal", back, exp, model.Opts{}) {
 		return
 	}
+	// the encoding sits somewhere in a longer buffer of the caller's (a network or
+	// driver buffer: any offset), which is reused as soon as the decoder returns;
+	// the geometry must not be made of that memory
+	{
+		off := r.Intn(17)
+		bufc := make([]byte, off+len(want)+r.Intn(9))
+		copy(bufc[off:], want)
+		var b2 geom.T
+		if c.Guard("panic", func() { b2, err = m.unmarshal(bufc[off : off+len(want)]) }) {
+			return
+		}
+		c.Eval(1)
+		for i := range bufc {
+			bufc[i] = 0xEE
+		}
+		c.Count("decoded_from_a_caller_buffer_that_is_reused_afterwards")
+		if err != nil || !expectGeom(c, fmt.Sprintf("%s Unmarshal from offset %d of a buffer overwritten afterwards", m.name, off), b2, exp, model.Opts{}) {
+			if err != nil {
+				c.Fail("unmarshal-error", "%s: Unmarshal rejected the standard encoding at offset %d of a longer buffer: %v", m.name, off, err)
+			}
+			return
+		}
+	}
 	// the independent reader agrees with the independent writer (self-check of the oracle)
 	if rg, n, e := ref.ReadWKB(want, m.o); e != nil || n != len(want) || model.Equal(exp, rg, model.Opts{}) != "" {
 		c.Fail("oracle-inconsistent", "reference reader and writer disagree: err=%v consumed=%d/%d diff=%s", e, n, len(want), model.Equal(exp, rg, model.Opts{}))
